@@ -632,6 +632,7 @@ func c20compareType(exp c20expect, name string, attrs map[string]jsonapi.Attr, r
 
 func (m c20) Directed(c *Ctx) {
 	sameNameCheck(c, "C20")
+	tagOptCheck(c, "C20")
 	r := NewRNG(7)
 	mk := func(fs ...c20field) c20shape { return c20shape{Fields: fs} }
 	id := c20field{Name: "ID", Go: "string", JSON: sp("id"), API: sp("t")}
